@@ -32,7 +32,7 @@
 #define AWS_TKMAX 16		/* tokens per string */
 #endif
 #ifndef AWS_TXMAX
-#define AWS_TXMAX 192		/* bytes per TEXT run */
+#define AWS_TXMAX 256		/* bytes per TEXT run */
 #endif
 #ifndef AWS_ARGMAX
 #define AWS_ARGMAX 72		/* longest unregistered %s argument / literal the scanner will follow */
